@@ -276,6 +276,10 @@ class MQTTBaseProtocol(Protocol):
                    0x0C: "PINGREQ", 0x0D: "PINGRESP",    0x0E: "DISCONNECT"}
 
 
+    # Remaining length of the packets whose size is fixed
+    fixedLengths = {"CONNACK": 2, "PUBACK": 2, "PUBREC": 2, "PUBREL": 2,
+                    "PUBCOMP": 2, "UNSUBACK": 2, "PINGRESP": 0}
+
     MAX_WINDOW          = 16   # Max value of in-flight PUBLISH/SUBSCRIBE/UNSUBSCRIBE
     TIMEOUT_INITIAL     = 4    # Initial tiemout for retransmissions
     TIMEOUT_MAX_INITIAL = 1024 # Maximun value for initial timeout
@@ -360,6 +364,16 @@ class MQTTBaseProtocol(Protocol):
                 packet_flags &= 0x07
             if packet_flags != expected:
                 log.error("Invalid flags {flags:x} in {packet}", flags=packet[0] & 0x0F, packet=packet_type_name)
+                self.transport.abortConnection()
+                return
+
+        # A packet of fixed size with any other remaining length is corrupt
+        if packet_type_name in self.fixedLengths:
+            lenLen = 1
+            while packet[lenLen] & 0x80:
+                lenLen += 1
+            if len(packet) - lenLen - 1 != self.fixedLengths[packet_type_name]:
+                log.error("Invalid length {length} of {packet}", length=len(packet) - lenLen - 1, packet=packet_type_name)
                 self.transport.abortConnection()
                 return
 
